@@ -297,8 +297,8 @@ def loop (E : Env) : Nat → Call → Call × Ret
     | .stop k' h => (k', .hint h)
     | .fail c e => ({ k with c := c }, .error e)
 
-/-- iterations one call can need: every block cycle consumes at least its 4-byte header -/
-def fuelFor (src : Bytes) : Nat := 8 * src.length + 32
+/-- iterations one call can need (`Proofs/FrameDS5.lean`: every iteration that does not stop either consumes input or moves to a stage of lower rank) -/
+def fuelFor (src : Bytes) : Nat := 32 * src.length + 33
 
 /-- `LZ4F_decompress(dctx, dst, &cap, src, &srcSize, options)` -/
 def decompress (E : Env) (c : Ctx) (src : Bytes) (cap : Nat) (skipOpt : Bool) : Result :=
